@@ -180,9 +180,9 @@ class GrowthRule(sym.Rule):
             return
         cap0 = atom(('init', ca))
         size0 = atom(('init', sa))
-        Cf = st.mem.get(ca, cap0)
-        Sf = st.mem.get(sa, size0)
-        Pf = st.mem.get(pa) if pa is not None else None
+        Cf = eng.load(st, ca)
+        Sf = eng.load(st, sa)
+        Pf = eng.load(st, pa) if pa is not None else None
         if versioned(Cf) or versioned(Sf) or (Pf is not None and versioned(Pf)):
             self.unjudged += 1
             return
